@@ -77,7 +77,7 @@ def written_root(node):
 
 
 def shared(owner):
-    return owner.startswith(("CACHE", "FD", "KW:", "GLOBAL:", "PARAM:", "SELF:"))
+    return owner.startswith(("CACHE", "FD", "KW:", "GLOBAL:", "PARAM:", "SELF:", "MEMO:"))
 
 
 def not_global(o):
